@@ -3,9 +3,12 @@
    and the post-view the specification computed for every step.
    Atomic = TRUE : steps are tick / state / restart / xchg (one whole GossipOnceWith)
    Atomic = FALSE: message-level steps send / sync / ack / ack2 / drop, MaxMsgs in flight.
+   Once = TRUE   : (with Atomic) no changes, and every unordered pair exchanges at most once:
+                   with Depth = 1 + number of pairs the histories are all orders and directions
+                   of one exchange per pair, each ending with AllPairs (convergence asserted).
    First entry of every history is an "init" record holding the initial views.        *)
 EXTENDS Gossip, Sequences, Json
-CONSTANTS Depth, Atomic
+CONSTANTS Depth, Atomic, Once
 VARIABLE hist
 \* compact JSON: a record [g, v, s] is printed as the array [g, v, s], a digest as [g, v]
 CRecs(f) == [k \in DOMAIN f |-> <<f[k].g, f[k].v, f[k].s>>]
@@ -24,8 +27,8 @@ Changes == \E n \in Node :
              \/ Restart(n) /\ Log("restart", n, "", 0)
              \/ \E s \in 0..MaxState : StateChange(n, s) /\ Log("state", n, "", s)
 GNext == /\ Len(hist) < Depth
-         /\ \/ Changes
-            \/ Atomic /\ \E i, j \in Node : Exchange(i, j) /\ Log("xchg", i, j, 0)
+         /\ \/ ~Once /\ Changes
+            \/ Atomic /\ \E i, j \in Node : (~Once \/ {i, j} \notin exchanged) /\ Exchange(i, j) /\ Log("xchg", i, j, 0)
             \/ ~Atomic /\ \E i, j \in Node : SendSync(i, j) /\ Log("send", i, j, 0)
             \/ ~Atomic /\ \E m \in net :
                   \/ HandleSync(m) /\ Log("sync", Initiator(m), Peer(m), 0)
